@@ -29,6 +29,25 @@ def install_gdb_stub():
         def __init__(self, *a, **k): pass
     class Command:
         def __init__(self, *a, **k): pass
+    class Thread:
+        global_num = 0
+    class Value:
+        pass
+    class Frame:
+        pass
+    for k in (Thread, Value, Frame, Breakpoint, Command):
+        k.__module__ = 'gdb'
+    gdb.Thread, gdb.Value, gdb.Frame = Thread, Value, Frame
+    def selected_thread(): raise RuntimeError('gdb stub')
+    def execute(command): raise RuntimeError('gdb stub')
+    def write(text, stream=None): raise RuntimeError('gdb stub')
+    def selected_frame(): raise RuntimeError('gdb stub')
+    def breakpoints(): raise RuntimeError('gdb stub')
+    def parse_and_eval(expression): raise RuntimeError('gdb stub')
+    for f in (selected_thread, execute, write, selected_frame, breakpoints, parse_and_eval):
+        f.__module__ = 'gdb'
+        f.__qualname__ = f.__name__
+        setattr(gdb, f.__name__, f)
     gdb.Breakpoint = Breakpoint
     gdb.Command = Command
     gdb.lookup_type = lambda name: _T()
